@@ -1061,10 +1061,15 @@ func init() {
 			}
 			return 2000
 		},
-		Run:           runC12,
-		MinNontrivial: func(tier string) int { return 500 },
-		Gates:         shapeGates("cases:sparse", "cases:dense", "queries:indexed", "queries:absent", "reader_reads", "survivor_rechecks", "loaded_into_receivers_with_a_history", "snapshot_copies_outlive_reloads"),
-		Assumptions:   []string{"the verifying reader in harness/chk_misc.go models 'a data reader that verifies the record key'"},
+		Run: runC12,
+		// "Get returns the stored record ... and not-found for every other
+		// string": a lookup that never returns is neither (normal cost of a
+		// case: milliseconds, seconds for the 280 000-key one)
+		HangIsViolation: true,
+		HangSeconds:     150,
+		MinNontrivial:   func(tier string) int { return 500 },
+		Gates:           shapeGates("cases:sparse", "cases:dense", "queries:indexed", "queries:absent", "reader_reads", "survivor_rechecks", "loaded_into_receivers_with_a_history", "snapshot_copies_outlive_reloads"),
+		Assumptions:     []string{"the verifying reader in harness/chk_misc.go models 'a data reader that verifies the record key'"},
 	})
 	register(&CheckDef{
 		ID: "C17", Level: "exploration",
